@@ -1,5 +1,5 @@
 (* C30 — RuntimeDialect with the standard table matches ChiaDialect.
-   Only statements here; every proof is `exact <lemma>` from Proofs/DialectC30.v.
+   Only statements here; every proof is `exact <lemma>` from Proofs/DialectC30.v, DialectLimits.v, DialectC30All.v.
 
    Models: Model/Dialect.v [runtime_dialect] (runtime_dialect.rs + the standard operator-name
    table of f_table.rs, quote 1, apply 2) and [chia_dialect] (chia_dialect.rs), both over the
@@ -15,13 +15,35 @@
    so "uses only" is a property of the run, not of the program text: the premise of C30_run is
    that the run on the barrier dialect does not end in the barrier error.
 
-   Full statement: for flags minus ENABLE_GC and DISABLE_OP, same result, cost and error kind.
-   Proved: C30_run, under the additional premise [dialect_flags flags = flags], i.e. not both
-   NEW_COST_MODEL and LIMITS (ChiaDialect::new clears LIMITS under NEW_COST_MODEL, RuntimeDialect
-   does not; every operator reads LIMITS only without NEW_COST_MODEL, but that per-operator fact
-   is not proved here: that flag combination is covered by the differential run only).
+   Flags. RuntimeDialect::new keeps the flag word F as given and hands it unchanged to every
+   operator; its gc_candidate is constantly false and its dispatch never reads DISABLE_OP.
+   ChiaDialect::new clears LIMITS when NEW_COST_MODEL is set, reads ENABLE_GC (gc_candidate) and
+   DISABLE_OP (dispatch of opcode 60). Operators read LIMITS and DISABLE_OP only in the form
+   `flag && !NEW_COST_MODEL && size test` (multiply, div, divmod, mod, modpow, g1_multiply,
+   g2_multiply) and never ENABLE_GC: C30_flags_unobservable, proved for every operator function
+   either dispatch table can return (Proofs/DialectLimits.v, [flags_sim], [all_ops]).
+
+   Full statement: same result, cost and error kind as ChiaDialect "with the same flags minus
+   ENABLE_GC and DISABLE_OP", for all programs, environments, budgets and flag sets.
+   * Read as "both dialects built with the same flag set F, F containing neither ENABLE_GC nor
+     DISABLE_OP": C30_run, whole - every such F (with or without LIMITS, NEW_COST_MODEL, ...; the
+     former premise [dialect_flags flags = flags] is gone), every primitives record, fuel, program,
+     environment and budget.
+   * Read as "RuntimeDialect{F} against ChiaDialect{F minus ENABLE_GC and DISABLE_OP}", F any flag
+     set: C30_run_all proves it for every F that has NEW_COST_MODEL or lacks DISABLE_OP (ENABLE_GC
+     free); C30_run_words is the same on 32-bit flag words and the extraction entry points
+     run_runtime / run_chia. On the remaining class (DISABLE_OP without NEW_COST_MODEL) it is
+     FALSE, C30_minus_disable_op_refuted: op_div, op_divmod and op_mod themselves read DISABLE_OP
+     (a dividend longer than 2048 bytes is rejected) and RuntimeDialect hands the bit to them:
+     (/ (q . 0x01^2049) (q . 3)) fails with InvalidOpArg on RuntimeDialect{DISABLE_OP} and succeeds
+     with cost 29709 on ChiaDialect{}. Reproduced on the implementation by lib/props/c30.py (probe
+     "disable_op_div").
+   * C30_run_minus_gc - for EVERY flag set F without exception: RuntimeDialect{F} =
+     ChiaDialect{F minus ENABLE_GC} [DISABLE_OP kept], the barrier additionally closing opcode 60
+     under DISABLE_OP without NEW_COST_MODEL (ChiaDialect's dispatch disables modpow there,
+     RuntimeDialect's does not: C30_modpow_disabled_differs).
    C30_dispatch is the opcode-level fact; C30_tables the table-level one. *)
-From Clvm Require Import Model.Dialect Proofs.DialectC30.
+From Clvm Require Import Model.Dialect Proofs.DialectContracts Proofs.DialectC30 Proofs.DialectLimits Proofs.DialectC30All.
 Open Scope N_scope.
 
 Theorem C30_tables : forall P flags x, f_disable_op flags = false -> inb x RUNTIME_CODES = true ->
@@ -38,12 +60,49 @@ Theorem C30_dispatch : forall P flags b a m ext, f_disable_op flags = false -> c
 Proof. exact dispatch_agree. Qed.
 
 Theorem C30_run : forall P flags,
-  f_enable_gc flags = false -> f_disable_op flags = false -> dialect_flags flags = flags ->
+  f_enable_gc flags = false -> f_disable_op flags = false ->
   forall fuel p e M,
   run_program (common_dialect P flags) fuel p e M <> Err Unsupported ->
   run_program (runtime_dialect P flags) fuel p e M = run_program (common_dialect P flags) fuel p e M /\
   run_program (chia_dialect P flags) fuel p e M = run_program (common_dialect P flags) fuel p e M.
-Proof. exact runtime_matches_chia. Qed.
+Proof. exact runtime_matches_chia_same. Qed.
+
+(* every operator function of either table gives the same outcome on flag sets that differ only in
+   ENABLE_GC and, under NEW_COST_MODEL, in LIMITS / DISABLE_OP *)
+Theorem C30_flags_unobservable : forall P, Forall op_mask_indep (all_ops P).
+Proof. exact all_ops_mask_indep. Qed.
+
+Theorem C30_run_all : forall P F, f_disable_op F = false \/ f_new_cost_model F = true ->
+  forall fuel p e M,
+  run_program (common_dialect P F) fuel p e M <> Err Unsupported ->
+  run_program (runtime_dialect P F) fuel p e M = run_program (common_dialect P F) fuel p e M /\
+  run_program (chia_dialect P (minus_gc_disable_op F)) fuel p e M = run_program (common_dialect P F) fuel p e M.
+Proof. exact runtime_matches_chia_all. Qed.
+
+Theorem C30_run_words : forall P w, has w BIT_DISABLE_OP = false \/ has w BIT_NEW_COST_MODEL = true ->
+  forall fuel p e M,
+  run_program (common_dialect P (flags_of_N w)) fuel p e M <> Err Unsupported ->
+  run_runtime P fuel w p e M = run_chia P fuel (N.ldiff w GC_DISABLE_OP_BITS) p e M.
+Proof. exact run_runtime_eq_run_chia. Qed.
+
+Theorem C30_run_minus_gc : forall P F fuel p e M,
+  run_program (common_gc_dialect P F) fuel p e M <> Err Unsupported ->
+  run_program (runtime_dialect P F) fuel p e M = run_program (common_gc_dialect P F) fuel p e M /\
+  run_program (chia_dialect P (minus_gc F)) fuel p e M = run_program (common_gc_dialect P F) fuel p e M.
+Proof. exact runtime_matches_chia_gc. Qed.
+
+Theorem C30_minus_disable_op_refuted : forall P,
+  has BIT_DISABLE_OP BIT_DISABLE_OP = true /\ has BIT_DISABLE_OP BIT_NEW_COST_MODEL = false /\
+  run_program (common_dialect P (flags_of_N BIT_DISABLE_OP)) 100 div_2049 (Atom []) 0 = Err (InvalidOpArg 0) /\
+  run_runtime P 100 BIT_DISABLE_OP div_2049 (Atom []) 0 = Err (InvalidOpArg 0) /\
+  exists v, run_chia P 100 (N.ldiff BIT_DISABLE_OP GC_DISABLE_OP_BITS) div_2049 (Atom []) 0 = Ok (29709, v).
+Proof. exact minus_disable_op_refuted. Qed.
+
+Theorem C30_modpow_disabled_differs : forall P,
+  run_runtime P 100 BIT_DISABLE_OP modpow_2_77 (Atom []) 0 = Ok (17321, Atom [12; 128; 88]) /\
+  run_chia P 100 BIT_DISABLE_OP modpow_2_77 (Atom []) 0 = Err Unimplemented /\
+  run_chia P 100 0 modpow_2_77 (Atom []) 0 = Ok (17321, Atom [12; 128; 88]).
+Proof. exact modpow_disabled_differs. Qed.
 
 (* non-vacuity: (+ (q . 1) (q . 2)) and an unknown two-byte operator run on the barrier dialect
    without hitting the barrier; coinid (48) and softfork (36) hit it *)
@@ -58,8 +117,43 @@ Example C30_witness : forall P,
   dialect_flags f = f.
 Proof. intros P. vm_compute. repeat split. Qed.
 
+(* non-vacuity of C30_run_all / C30_run_words: NEW_COST_MODEL + LIMITS + DISABLE_OP + ENABLE_GC and
+   (multiply (q . 0x01^300) (q . 3)); the run does not hit the barrier, succeeds on both dialects with the
+   same cost and value; with LIMITS alone the 300-byte operand is rejected (the bit is live) *)
+Example C30_witness_limits : forall P,
+  let w := N.lor BIT_NEW_COST_MODEL (N.lor BIT_LIMITS (N.lor BIT_DISABLE_OP BIT_ENABLE_GC)) in
+  let q x := Cons (Atom [1]) x in
+  let prog := Cons (Atom [18]) (Cons (q (Atom (repeat 1 300))) (Cons (q (Atom [3])) (Atom []))) in
+  (has w BIT_DISABLE_OP = false \/ has w BIT_NEW_COST_MODEL = true) /\
+  has w BIT_LIMITS = true /\ dialect_flags (flags_of_N w) <> flags_of_N w /\
+  exists v,
+  run_program (common_dialect P (flags_of_N w)) 100 prog (Atom []) 0 = Ok (9550, v) /\
+  run_runtime P 100 w prog (Atom []) 0 = Ok (9550, v) /\
+  run_chia P 100 (N.ldiff w GC_DISABLE_OP_BITS) prog (Atom []) 0 = Ok (9550, v) /\
+  run_runtime P 100 BIT_LIMITS prog (Atom []) 0 = Err (InvalidOpArg 0) /\
+  run_chia P 100 BIT_LIMITS prog (Atom []) 0 = Err (InvalidOpArg 0).
+Proof. exact witness_limits. Qed.
+
+(* non-vacuity of C30_run_minus_gc in the class C30_run_all leaves out: DISABLE_OP without
+   NEW_COST_MODEL, (/ (q . 0x01^2049) (q . 3)) passes the barrier and fails alike on both *)
+Example C30_witness_disable_op : forall P,
+  let F := flags_of_N (N.lor BIT_DISABLE_OP BIT_ENABLE_GC) in
+  run_program (common_gc_dialect P F) 100 div_2049 (Atom []) 0 = Err (InvalidOpArg 0) /\
+  run_program (runtime_dialect P F) 100 div_2049 (Atom []) 0 = Err (InvalidOpArg 0) /\
+  run_program (chia_dialect P (minus_gc F)) 100 div_2049 (Atom []) 0 = Err (InvalidOpArg 0) /\
+  run_program (common_gc_dialect P F) 100 modpow_2_77 (Atom []) 0 = Err Unsupported.
+Proof. exact witness_disable_op. Qed.
+
 Print Assumptions C30_tables.
 Print Assumptions C30_unknown_to_both.
 Print Assumptions C30_dispatch.
 Print Assumptions C30_run.
 Print Assumptions C30_witness.
+Print Assumptions C30_flags_unobservable.
+Print Assumptions C30_run_all.
+Print Assumptions C30_run_words.
+Print Assumptions C30_run_minus_gc.
+Print Assumptions C30_minus_disable_op_refuted.
+Print Assumptions C30_modpow_disabled_differs.
+Print Assumptions C30_witness_limits.
+Print Assumptions C30_witness_disable_op.
